@@ -219,11 +219,24 @@ class MapOverlap(ArrayExpr):
 
     @functools.cached_property
     def shape(self):
-        # Output shape = input shape (no new_axis/drop_axis in this expr)
+        # Output shape = input shape (no new_axis/drop_axis in this expr),
+        # plus the halos when they are not trimmed off
+        if not self.trim_output:
+            return tuple(map(sum, self.chunks))
         return self._get_primary_array().shape
 
     @functools.cached_property
     def chunks(self):
+        if not self.trim_output:
+            # Untrimmed blocks keep their halos: the layout of the overlapped
+            # primary input (what _lower maps the function over)
+            i = self._get_primary_index()
+            return overlap(
+                new_collection(self._get_primary_array()),
+                depth=self.depth[i],
+                boundary=self.boundary[i],
+                allow_rechunk=self.allow_rechunk,
+            ).chunks
         # A recognized moving-window reduction keeps the input's native chunks
         # (see _native_moving_window); advertising them here keeps chunk-based
         # decisions made at construction time (rechunk elision, map_blocks
